@@ -52,6 +52,13 @@ FUNCS = [  # (lean name, file, class, method, translator key, lean type)
     ("classCheck", "statemachine/factory.py", "StateMachineMetaclass", "_check", "check", "List V.CStep"),
     ("metaInit", "statemachine/factory.py", "StateMachineMetaclass", "__init__", "metainit", "List V.MStmt"),
     ("transitionInit", "statemachine/transition.py", "Transition", "__init__", "transinit", "List V.TIStmt"),
+    ("store", "statemachine/statemachine.py", None, "store", "store", "St.StoreScript"),
+    ("smInit", "statemachine/statemachine.py", "StateMachine", "__init__", "sminit", "List St.CStmt"),
+    ("registerCallbacks", "statemachine/statemachine.py", "StateMachine", "_register_callbacks", "register", "List St.RStmt"),
+    ("addListener", "statemachine/statemachine.py", "StateMachine", "add_listener", "addlistener", "List St.LStmt"),
+    ("getState", "statemachine/statemachine.py", "StateMachine", "__getstate__", "getstate", "List St.GStmt"),
+    ("setState", "statemachine/statemachine.py", "StateMachine", "__setstate__", "setstate", "List St.SStmt"),
+    ("allowedEvents", "statemachine/statemachine.py", None, "allowed", "allowed", "St.AllowedScript"),
 ]
 ASYNC_DEF = {"activateAsync", "triggerAsync", "processAsync", "wrapperDunder", "execAsyncCall", "execAsyncAll"}
 
@@ -1231,10 +1238,220 @@ def tr_transinit(fn):
     return "[\n  " + ",\n  ".join(out) + "]"
 
 
+# ----------------------------------------------------------------------------------------- statemachine.py
+
+def _prop_fn(repo, name, setter=False):
+    """the getter (or setter) of the property `name` of class StateMachine"""
+    path = os.path.join(repo, "statemachine/statemachine.py")
+    try:
+        tree = ast.parse(open(path).read())
+    except (OSError, SyntaxError) as e:
+        raise Untranslatable(f"cannot parse statemachine.py: {e}")
+    for c in tree.body:
+        if isinstance(c, ast.ClassDef) and c.name == "StateMachine":
+            want = f"{name}.setter" if setter else "property"
+            found = [f for f in c.body if isinstance(f, ast.FunctionDef) and f.name == name
+                     and [ast.unparse(d) for d in f.decorator_list] == [want]]
+            if len(found) != 1:
+                raise Untranslatable(f"StateMachine.{name}: {len(found)} definitions decorated @{want}")
+            return found[0]
+    raise Untranslatable("class StateMachine not found")
+
+
+def _stmts(fn, table, what, env=None):
+    out = []
+    for s in _body(fn):
+        t = ntext(s, env)
+        k = table.get(t)
+        if k is None:
+            for pat, val in table.items():
+                if pat.startswith("re:") and re.match(pat[3:], t, flags=re.S):
+                    k = val
+                    break
+        if k is None:
+            raise Untranslatable(f"{what}: statement at line {s.lineno} not recognised: {t!r}")
+        if k:
+            out.append(k)
+    return "[" + ", ".join(out) + "]"
+
+
+def tr_store(repo):
+    """the functions of statemachine.py that read and write the model field -> StoreScript"""
+    vget = _stmts(_prop_fn(repo, "current_state_value"),
+                  {"return getattr(self.model, self.state_field, None)": ".retGetattrOrNone"}, "current_state_value")
+    fn = _prop_fn(repo, "current_state_value", setter=True)
+    if [a.arg for a in fn.args.args] != ["self", "value"]:
+        raise Untranslatable("current_state_value.setter: parameters")
+    vset = _stmts(fn, {"if value not in self.states_map:\n    raise InvalidStateValue(value)": ".raiseUnlessMapped",
+                       "setattr(self.model, self.state_field, value)": ".setattr"}, "current_state_value.setter")
+    fn = _prop_fn(repo, "current_state")
+    body = _body(fn)
+    ok = len(body) == 1 and isinstance(body[0], ast.Try) and not body[0].finalbody and not body[0].orelse \
+        and len(body[0].handlers) == 1 and ast.unparse(body[0].handlers[0].type or ast.Constant(None)) == "KeyError"
+    if ok:
+        tb = [ntext(x) for x in body[0].body]
+        tb = [re.sub(r"^state: State = ", "state = ", x) for x in tb]
+        ok = tb in (["state = self.states_map[self.current_state_value].for_instance(machine=self, cache=self._states_for_instance)",
+                     "return state"],
+                    ["return self.states_map[self.current_state_value].for_instance(machine=self, cache=self._states_for_instance)"])
+        hb = body[0].handlers[0].body
+        # every way out of the handler raises InvalidStateValue carrying the stored value
+        def raises_invalid(stmts):
+            if not stmts:
+                return False
+            last = stmts[-1]
+            if isinstance(last, ast.Raise) and last.exc is not None \
+                    and re.match(r"^InvalidStateValue\(self\.current_state_value\b", ast.unparse(last.exc)):
+                return all(isinstance(x, ast.If) and raises_invalid(x.body) and not x.orelse for x in stmts[:-1])
+            return False
+        ok = ok and raises_invalid(hb)
+    if not ok:
+        raise Untranslatable("current_state: not `try: return self.states_map[self.current_state_value].for_instance(…)` "
+                             "/ `except KeyError: raise InvalidStateValue(…)`")
+    sget = "[.lookupOrInvalid]"
+    fn = _prop_fn(repo, "current_state", setter=True)
+    if [a.arg for a in fn.args.args] != ["self", "value"]:
+        raise Untranslatable("current_state.setter: parameters")
+    sset = _stmts(fn, {"self.current_state_value = value.value": ".assignValueOf"}, "current_state.setter")
+    fn = method(repo, "statemachine/statemachine.py", "StateMachine", "_get_initial_state")
+    env = {}
+    ig = []
+    for st in _body(fn):
+        t = ntext(st, env)
+        m = re.match(r"^(\w+) = self\.start_value if self\.start_value is not None else self\.initial_state\.value$", t)
+        m2 = re.match(r"^(\w+) = self\.start_value if self\.start_value else self\.initial_state\.value$", t) \
+            or re.match(r"^(\w+) = self\.start_value or self\.initial_state\.value$", t)
+        if m or m2:
+            bind(env, (m or m2).group(1), "IV")
+            ig.append(".chooseStart " + (".isNotNone" if m else ".truthy"))
+            continue
+        if re.match(r"^try:\n    return self\.states_map\[IV\]\nexcept KeyError as (\w+):\n    raise InvalidStateValue\(IV\) from \1$", t) \
+                or t == "try:\n    return self.states_map[IV]\nexcept KeyError:\n    raise InvalidStateValue(IV)":
+            ig.append(".lookupOrInvalid")
+            continue
+        raise Untranslatable(f"_get_initial_state: statement at line {st.lineno} not recognised: {t!r}")
+    return ("{ vget := " + vget + ", vset := " + vset + ", sget := " + sget + ", sset := " + sset
+            + ", iget := [" + ", ".join(ig) + "] }")
+
+
+class _NoAnnotations(ast.NodeTransformer):
+    def visit_AnnAssign(self, node):
+        if node.value is None:
+            return node
+        return ast.copy_location(ast.Assign(targets=[node.target], value=node.value, lineno=node.lineno), node)
+
+
+def _plain(fn):
+    fn = copy.deepcopy(fn)
+    fn.body = [ast.fix_missing_locations(_NoAnnotations().visit(s)) for s in fn.body]
+    return fn
+
+
+def tr_sminit(fn):
+    a = fn.args
+    names = [x.arg for x in a.args]
+    if names != ["self", "model", "state_field", "start_value", "rtc", "allow_event_without_transition", "listeners"] \
+            or a.vararg or a.kwarg:
+        raise Untranslatable(f"StateMachine.__init__: parameters {names}")
+    table = {
+        "self.model = model if model is not None else Model()": ".chooseModel .isNotNone",
+        "self.model = model if model else Model()": ".chooseModel .truthy",
+        "self.model = model or Model()": ".chooseModel .truthy",
+        "self.state_field = state_field": '.field "state_field"',
+        "self.start_value = start_value": '.field "start_value"',
+        "self.allow_event_without_transition = allow_event_without_transition": '.field "allow_event_without_transition"',
+        "self._callbacks = CallbacksRegistry()": ".newRegistry",
+        "self._states_for_instance = {}": ".newInstanceStates",
+        "self._listeners = []": ".newListeners",
+        "self._listener_passes = [tuple(listeners or ())]": ".firstPass",
+        "re:^if self\\._abstract:\\n    raise InvalidDefinition\\(.*\\)$": ".raiseIfAbstract",
+        "self._register_callbacks(listeners or [])": ".registerCallbacks",
+        "self._engine = self._get_engine(rtc)": ".chooseEngine",
+        "self._engine.start()": ".startEngine",
+    }
+    return _stmts(_plain(fn), table, "StateMachine.__init__")
+
+
+def tr_register(fn):
+    if [x.arg for x in fn.args.args] != ["self", "listeners"]:
+        raise Untranslatable("_register_callbacks: parameters")
+    table = {
+        "self._remember_listeners(listeners)": ".remember",
+        "self._add_listener(Listeners.from_listeners((Listener.from_obj(self, skip_attrs=self._protected_attrs), "
+        "Listener.from_obj(self.model, skip_attrs={self.state_field}), "
+        "*(Listener.from_obj(X0) for X0 in listeners))))": ".resolveMachineModelListeners",
+        "check_callbacks = self._callbacks.check": "",
+        "for visited in iterate_states_and_transitions(self.states):\n    try:\n        check_callbacks(visited._specs)\n"
+        "    except Exception as err:\n        raise InvalidDefinition(f'Error on {visited!s} when resolving callbacks: {err}') from err":
+            ".checkAll",
+        "self._callbacks.async_or_sync()": ".asyncOrSync",
+    }
+    return _stmts(fn, table, "_register_callbacks")
+
+
+def tr_addlistener(fn):
+    if [x.arg for x in fn.args.args] != ["self"] or not fn.args.vararg or fn.args.vararg.arg != "listeners":
+        raise Untranslatable("add_listener: parameters")
+    table = {
+        "self._remember_listeners(listeners)": ".remember",
+        "self._listener_passes.append(tuple(listeners))": ".appendPass",
+        "return self._add_listener(Listeners.from_listeners((Listener.from_obj(X0) for X0 in listeners)), "
+        "allowed_references=SPECS_SAFE)": ".resolveListenersSafe",
+    }
+    return _stmts(fn, table, "add_listener")
+
+
+def tr_getstate(fn):
+    table = {
+        "state = self.__dict__.copy()": ".copyDict",
+        "state['_rtc'] = self._engine._rtc": '.put "_rtc"',
+        "state['_state_value'] = self.current_state_value": '.put "_state_value"',
+        "re:^del state\\['(_callbacks)'\\]$": '.del "_callbacks"',
+        "del state['_states_for_instance']": '.del "_states_for_instance"',
+        "del state['_engine']": '.del "_engine"',
+        "return state": ".ret",
+    }
+    return _stmts(fn, table, "__getstate__")
+
+
+def tr_setstate(fn):
+    if [x.arg for x in fn.args.args] != ["self", "state"]:
+        raise Untranslatable("__setstate__: parameters")
+    table = {
+        "listeners = state.pop('_listeners')": '.pop "_listeners"',
+        "passes = state.pop('_listener_passes', None) or [tuple(listeners)]": '.pop "_listener_passes"',
+        "rtc = state.pop('_rtc')": '.pop "_rtc"',
+        "state_value = state.pop('_state_value', None)": '.pop "_state_value"',
+        "self.__dict__.update(state)": ".updateDict",
+        "if state_value is not None and getattr(self.model, self.state_field, None) is None:\n"
+        "    setattr(self.model, self.state_field, state_value)": ".restoreStateIfModelEmpty",
+        "self._callbacks = CallbacksRegistry()": ".newRegistry",
+        "self._states_for_instance = {}": ".newInstanceStates",
+        "self._listeners = []": ".newListeners",
+        "self._listener_passes = [passes[0]]": ".firstPass",
+        "self._register_callbacks(list(passes[0]))": ".registerFirstPass",
+        "for late in passes[1:]:\n    self.add_listener(*late)": ".replayLatePasses",
+        "self._engine = self._get_engine(rtc)": ".chooseEngine",
+        "self._engine.start()": ".startEngine",
+    }
+    return _stmts(_plain(fn), table, "__setstate__")
+
+
+def tr_allowed(repo):
+    """`events` and `allowed_events`: which names are looked up on the instance"""
+    a = _stmts(_prop_fn(repo, "allowed_events"),
+               {"return [getattr(self, X0) for X0 in self.current_state.transitions.unique_events]": ".uniqueEventsOfCurrentState"},
+               "allowed_events")
+    e = _stmts(_prop_fn(repo, "events"),
+               {"return [getattr(self, X0) for X0 in self.__class__._events]": ".declaredEventsOfClass"}, "events")
+    return "{ allowed := " + a + ", events := " + e + " }"
+
+
 TRANSLATORS = {"eventcall": tr_eventcall, "send": tr_send, "start": tr_start, "injected": tr_injected,
                "activate": tr_activate, "trigger": tr_trigger, "process": tr_process, "wrapper": tr_wrapper,
                "executor": tr_executor, "bind": tr_bind,
-               "metainit": tr_metainit}
+               "metainit": tr_metainit, "sminit": tr_sminit, "register": tr_register, "addlistener": tr_addlistener,
+               "getstate": tr_getstate, "setstate": tr_setstate}
 
 
 def translate(repo):
@@ -1260,6 +1477,12 @@ def translate(repo):
                 continue
             if key == "transinit":
                 res[name] = (ty, tr_transinit(fn), None)
+                continue
+            if key == "store":
+                res[name] = (ty, tr_store(repo), None)
+                continue
+            if key == "allowed":
+                res[name] = (ty, tr_allowed(repo), None)
                 continue
             if key == "injected":
                 if [ast.unparse(d) for d in fn.decorator_list] != ["property"]:
@@ -1354,6 +1577,18 @@ SELFTEST_EDITS = [
     ("statemachine/factory.py", "                warnings.warn(message, UserWarning, stacklevel=1)", "                pass"),
     ("statemachine/transition.py", "        if internal and source is not target:", "        if internal and source != target:"),
     ("statemachine/transition.py", ".add(unless, priority=CallbackPriority.INLINE, expected_value=False)", ".add(unless, priority=CallbackPriority.INLINE, expected_value=True)"),
+    ("statemachine/statemachine.py", "        self.model = model if model is not None else Model()", "        self.model = model if model else Model()"),
+    ("statemachine/statemachine.py", "            self.start_value if self.start_value is not None else self.initial_state.value", "            self.start_value if self.start_value else self.initial_state.value"),
+    ("statemachine/statemachine.py", "        if value not in self.states_map:\n            raise InvalidStateValue(value)\n        setattr(self.model, self.state_field, value)", "        setattr(self.model, self.state_field, value)\n        if value not in self.states_map:\n            raise InvalidStateValue(value)"),
+    ("statemachine/statemachine.py", "        self.current_state_value = value.value", "        setattr(self.model, self.state_field, value.value)"),
+    ("statemachine/statemachine.py", "        return getattr(self.model, self.state_field, None)", "        return getattr(self.model, self.state_field, None) or None"),
+    ("statemachine/statemachine.py", "        self._register_callbacks(listeners or [])\n\n        # Activate", "        self._engine = self._get_engine(rtc)\n        self._register_callbacks(listeners or [])\n\n        # Activate"),
+    ("statemachine/statemachine.py", "        for late in passes[1:]:\n            self.add_listener(*late)\n", "        self.add_listener(*[x for late in passes[1:] for x in late])\n"),
+    ("statemachine/statemachine.py", "        self._listener_passes.append(tuple(listeners))\n", ""),
+    ("statemachine/statemachine.py", "        state[\"_state_value\"] = self.current_state_value\n", ""),
+    ("statemachine/statemachine.py", "                    Listener.from_obj(self.model, skip_attrs={self.state_field}),", "                    Listener.from_obj(self.model, skip_attrs=self._protected_attrs),"),
+    ("statemachine/statemachine.py", "            allowed_references=SPECS_SAFE,\n", ""),
+    ("statemachine/statemachine.py", "        return [getattr(self, event) for event in self.current_state.transitions.unique_events]", "        return [getattr(self, event) for event in self.__class__._events]"),
 ]
 
 
@@ -1391,6 +1626,7 @@ def selftest(repo):
 HEADER = """import SMV.Src.IR
 import SMV.Src.IRBind
 import SMV.Src.IRCheck
+import SMV.Src.IRStore
 /-! GENERATED by `harness/srcgen.py --write-expected` from the tree the theorems of `SMV/Src/Tie.lean` were
 proved for. Do not edit by hand. -/
 """
